@@ -18,7 +18,10 @@ def gen_family(rng, stats, nmax=4, allow_empty=True, dtype_choices=('f', 'f', 'i
     uni = {}
     for d in pool:
         k = rng.choice(['i', 'f', 'O'])
-        if k == 'i': u = rng.sample(range(-3, 12), 6)
+        if k == 'i':
+            u = rng.sample(range(-3, 12), 6)
+            if rng.random() < 0.15:          # integers that float32 cannot hold: a merge with a float axis must not round them
+                u = [x + 16777217 for x in u]; stats['big_int_labels']['yes'] += 1
         elif k == 'f': u = [x / 2.0 for x in rng.sample(range(-6, 20), 6)]
         else: u = rng.sample(STRS, 6)
         uni[d] = (k, u)
